@@ -48,6 +48,17 @@ class C08(Prop):
             elif r < 0.11:
                 zs = zs[:-1] if n > 1 else zs + zs
             yield {"stream": "pairs", "f": f, "level": lv, "y": [str(v) for v in ys], "z": [str(v) for v in zs]}
+        for k in range(N // 6):
+            # predictions a hair below / above an observation (no tolerance may be applied to the indicator)
+            import math
+            n = rng.randint(1, 8)
+            ysf = [rng.choice([1.0, 0.1, 3.5, 1e6, -2.25, 1e-3, 123456.789]) for _ in range(n)]
+            zsf = []
+            for y in ysf:
+                r = rng.random()
+                zsf.append(math.nextafter(y, -math.inf) if r < 0.35 else math.nextafter(y, math.inf) if r < 0.5 else y * (1 - 1e-10) if r < 0.7 else y * (1 + 1e-12) if r < 0.8 else y)
+            yield {"stream": "pairs", "f": rng.choice(FUNCS), "level": rng.choice(ic.DYADIC_LEVELS[:9]),
+                   "y": [str(Fraction(v)) for v in ysf], "z": [str(Fraction(v)) for v in zsf]}
         M = 400 if tier == "quick" else 6000
         for k in range(M):
             n = rng.randint(1, 14)
@@ -102,7 +113,7 @@ class C08(Prop):
             return None if io["err"] == mo["err"] else f"exception class differs: {io['err']} vs {mo['err']}"
         vm = dec_list(mo["v"])
         for i, (a, b) in enumerate(zip(io["v"], vm)):
-            if not close(a, b, 1e-12, 1e-12):
+            if not (close(a, b, 1e-12, 1e-12) and (a == 0) == (b == 0) and (a > 0) == (b > 0)):
                 return f"V[{i}] = {a!r}, model {float(b)!r}"
         return None
 
